@@ -21,6 +21,7 @@ TRUSTED_BASE = [
     'Print Assumptions of every pinned theorem must be "Closed under the global context" (no axioms)',
     'extraction with ExtrOcamlBasic only (bool/option/list/prod/unit/sumbool to OCaml natives; N, positive, comparison stay extracted inductives; no Extract Constant) + ocaml/driver.ml (parsing and dispatch only)',
     'correspondence harness /verif/harness (Rust, public API of pep508_rs built from /repo working tree) and the orchestrator in /verif/lib/vlib (generators, conversion of kind() dumps to cut form, diffing)',
+    'table translator /verif/tools/gentables.py (regenerates gen/Tables.v from /repo/src on every run: enums in declaration order and match tables arm for arm; refuses shapes it does not recognise); used by the properties that pin gen/CxxTables.v',
     'dependencies of pep508_rs are modelled or treated as oracles, not verified: pep440_rs (version text syntax, Version order, release_specifier_to_range), version-ranges, url, regex, boxcar, std',
 ]
 
